@@ -402,6 +402,41 @@ func c11Requests() []c11Request {
 				},
 				func() string { return e.observeDoc(id) + e.observeUser(user) }, claims
 		}},
+		{Name: "import-on-read", Prepare: func(e *c11Env, n int) (func() *TestResponse, func() string, []c11Claim) {
+			// an external application writes the document directly; the first gateway read imports it
+			id := fmt.Sprintf("c11ext%d", n)
+			m := fmt.Sprintf("marker-%d", n)
+			ds := e.rawDS(e.rt.GetSingleDataStore().GetName())
+			if err := ds.SetRaw(context.Background(), id, 0, nil, []byte(`{"ch":["A"],"m":"`+m+`"}`)); err != nil {
+				e.t.Fatalf("external write: %v", err)
+			}
+			return func() *TestResponse { return e.admin("GET", "/{{.keyspace}}/"+id, "") },
+				func() string { return "" }, // any later read would import: only the raw state is compared for this request type
+				[]c11Claim{{What: "imported document readable with a revision", Chk: func() (bool, string) {
+					r := e.admin("GET", "/{{.keyspace}}/"+id, "")
+					return r.Code == 200 && strings.Contains(r.Body.String(), m) && strings.Contains(r.Body.String(), `"_rev":"1-`), fmt.Sprintf("GET -> %d %s", r.Code, r.Body.String())
+				}}}
+		}},
+		{Name: "import-on-write", Prepare: func(e *c11Env, n int) (func() *TestResponse, func() string, []c11Claim) {
+			// gateway document, then an external update; the next gateway write has to import it first
+			id := fmt.Sprintf("c11ext%d", n)
+			e.mustAdmin("PUT", "/{{.keyspace}}/"+id, `{"ch":["A"],"m":"old"}`, 201)
+			ds := e.rawDS(e.rt.GetSingleDataStore().GetName())
+			if err := ds.SetRaw(context.Background(), id, 0, nil, []byte(`{"ch":["A"],"m":"external"}`)); err != nil {
+				e.t.Fatalf("external write: %v", err)
+			}
+			m := fmt.Sprintf("marker-%d", n)
+			return func() *TestResponse {
+					// the writer does not know the imported revision: a blind write must be refused (409) without damage,
+					// or accepted on top of the import
+					return e.admin("PUT", "/{{.keyspace}}/"+id, `{"ch":["A"],"m":"`+m+`"}`)
+				},
+				func() string { return "" },
+				[]c11Claim{{What: "written document readable", Chk: func() (bool, string) {
+					r := e.admin("GET", "/{{.keyspace}}/"+id, "")
+					return r.Code == 200 && strings.Contains(r.Body.String(), m), fmt.Sprintf("GET -> %d %s", r.Code, r.Body.String())
+				}}}
+		}},
 		{Name: "user-create", Prepare: func(e *c11Env, n int) (func() *TestResponse, func() string, []c11Claim) {
 			user := fmt.Sprintf("c11u%d", n)
 			return func() *TestResponse {
@@ -565,6 +600,15 @@ func TestVerif_C11_Faults(t *testing.T) {
 				run.Violation("rejection", "C11|"+rq.Name+"|rejected-write-was-accepted", fmt.Sprintf("status %d", resp.Code), witness(nil))
 			} else {
 				e.checkUnchanged(rq.Name, "none", before, observe(), pre, witness(nil))
+			}
+			run.Nontrivial(rq.Name + "/zero-fault")
+			continue
+		}
+		if !ok && rq.Name == "import-on-write" {
+			// a blind write on top of an un-imported external update is refused with a conflict: the external body must survive
+			r := e.admin("GET", fmt.Sprintf("/{{.keyspace}}/c11ext%d", e.n), "")
+			if r.Code != 200 || !strings.Contains(r.Body.String(), "external") {
+				run.Violation("unchanged", "C11|import-on-write|fault=none|refused-write-damaged-the-external-update", fmt.Sprintf("PUT -> %d, then GET -> %d %s", resp.Code, r.Code, r.Body.String()), witness(nil))
 			}
 			run.Nontrivial(rq.Name + "/zero-fault")
 			continue
